@@ -387,6 +387,21 @@ func (r *Runner) Run(c *Case) {
 			}
 			continue
 		}
+		if o.K == "ws" && o.Ws.Unmodelled { // dial only; neither listed-polling nor an operation of the model
+			hdr := http.Header{}
+			hdr.Set("User-Agent", r.uaString(o.Ws.UA))
+			code := r.byOp[o.Ws.Code.Op]
+			d := websocket.Dialer{HandshakeTimeout: 3 * time.Second}
+			if conn, _, err := d.Dial(r.E.RelayWs+o.Ws.Path+"?code="+url.QueryEscape(code), hdr); err == nil {
+				r.conns[o.Ws.UA] = conn
+				r.joins++ // so that Close waits for the listing to empty
+				if r.AfterOp != nil {
+					out := Out{K: "ws", Ws: "unmodelled"}
+					r.AfterOp(i, &o, &out)
+				}
+			}
+			continue
+		}
 		if o.K == "wait" { // until the wall clock reads o.T milliseconds; not an operation of the model
 			time.Sleep(time.Until(time.UnixMilli(o.T)))
 			continue
@@ -597,6 +612,29 @@ func (r *Runner) doWs(w *Ws) (int64, Out) {
 		r.random++
 		code = fmt.Sprintf("0badc0de-0000-4000-8000-%012d", r.random)
 		codeN = 1000000 + r.random
+	case "respell": // the code a session of this case was issued, written differently
+		base, ok := r.byOp[w.Code.Op]
+		r.random++
+		codeN = 3000000 + r.random
+		if !ok {
+			code = fmt.Sprintf("0badc0de-0000-4000-8000-%012d", r.random)
+			break
+		}
+		switch w.Code.How {
+		case "upper":
+			code = strings.ToUpper(base)
+		case "braces":
+			code = "{" + base + "}"
+		case "urn":
+			code = "urn:uuid:" + base
+		case "nohyphen":
+			code = strings.ReplaceAll(base, "-", "")
+		default:
+			code = "{" + strings.ToUpper(base) + "}"
+		}
+		if code == base { // a uuid without letters upper-cases to itself: then it IS the issued code
+			codeN = r.codeNumber(base)
+		}
 	case "literal": // a string nobody was issued but anybody can guess
 		code = w.Code.Lit
 		r.random++
